@@ -2,7 +2,8 @@
 
    Model: Graph/GStore.v (Node, Output, Graph), Graph/Engine.v (Transformer.transform),
    Graph/Denote.v (what a node output denotes, for every interpretation of payloads),
-   Graph/Copy.v Rename.v Dedup.v Split.v Expand.v Fuse.v (the six transformers),
+   Graph/Copy.v Rename.v Dedup.v Split.v Expand.v Fuse.v (the six transformers; Graph/SplitPlaced.v:
+   where split puts every node, for keys that read the node's inputs too),
    Graph/GraphOps.v (Graph objects over time: empty, +, +=, join_namespaced), as of the
    repository commits 5f2bc4c, 96f2ca8, c784dd1.
    Hypotheses, in words:
@@ -13,7 +14,7 @@
 From Coq Require Import List String Bool Arith ZArith Lia.
 From EKW Require Import Graph.GStore Graph.ExportCheck Graph.Denote Graph.Engine Graph.EngineProofs.
 From EKW Require Import Graph.Copy Graph.Rename Graph.CopyProofs Graph.Dedup Graph.DedupProofs Graph.DedupIdem.
-From EKW Require Import Graph.Split Graph.SplitProofs Graph.Expand Graph.ExpandProofs Graph.Fuse Graph.FuseProofs.
+From EKW Require Import Graph.Split Graph.SplitProofs Graph.SplitPlaced Graph.Expand Graph.ExpandProofs Graph.Fuse Graph.FuseProofs.
 From EKW Require Import Graph.EngineFuel Graph.EngineFuelAll Graph.ExpandSplice.
 From EKW Require Import Graph.EngineCheck Graph.GraphOps Graph.GraphOpsProofs Graph.GraphOpsCheck.
 Import ListNotations.
@@ -84,12 +85,13 @@ Theorem C11_dedup_idempotent :
     (forall m m' r, In (m, r) done -> In (m', r) done -> m = m').
 Proof. exact dedup_idempotent. Qed.
 
-(* split_graph, for ANY key function, key equality and cut naming: every sink of the input
+(* split_graph, for ANY key function (of the node and, through the heap, of the nodes its inputs
+   point to: Graph/Split.v), key equality and cut naming: every sink of the input
    is a sink of one of the parts, and in the parts re-joined along the cut edges (the source
    created for a cut stands for the output the cut replaced) it denotes what it denoted *)
 Theorem C11_split_rejoin :
   forall (P V K : Type) (interp : option P -> list string -> list (string * V) -> string -> V)
-         (keqb : K -> K -> bool) (key : node P -> K) (cut_name : cutedge K -> string)
+         (keqb : K -> K -> bool) (key : list (node P) -> node P -> K) (cut_name : cutedge K -> string)
          (g : graph P) (r : splitres P K),
   topo (heap g) -> split_graph keqb key cut_name g = Ok r ->
   exists rs, Forall2 (fun s x => in_part K (rparts r) x /\
@@ -97,7 +99,7 @@ Theorem C11_split_rejoin :
                      (sinks g) rs.
 Proof.
   intros P V K interp keqb key cut_name g r Ht H.
-  exact (split_rejoin_sem P V interp K keqb key cut_name (heap g) Ht g r eq_refl H).
+  exact (split_rejoin_sem P V interp K keqb (key (heap g)) cut_name (heap g) Ht g r eq_refl H).
 Qed.
 
 (* split, for any key function whose == is equality: a node of the result is reachable from
@@ -105,13 +107,13 @@ Qed.
    part is in C11_split_rejoin) *)
 Theorem C11_split_partition :
   forall (P K : Type) (keqb : K -> K -> bool), (forall a b, keqb a b = true <-> a = b) ->
-  forall (key : node P -> K) (cut_name : cutedge K -> string) (g : graph P) (r : splitres P K),
+  forall (key : list (node P) -> node P -> K) (cut_name : cutedge K -> string) (g : graph P) (r : splitres P K),
   split_graph keqb key cut_name g = Ok r ->
   forall x k1 ss1 k2 ss2, In (k1, ss1) (rparts r) -> In (k2, ss2) (rparts r) ->
     reachable (rheap r) ss1 x -> reachable (rheap r) ss2 x -> (k1, ss1) = (k2, ss2).
 Proof.
   intros P K keqb Hk key cut_name g r H.
-  exact (split_partition P K keqb Hk key cut_name (heap g) g r eq_refl H).
+  exact (split_partition P K keqb Hk (key (heap g)) cut_name (heap g) g r eq_refl H).
 Qed.
 
 (* split: one (sink, source) pair per reported cut edge, in order: both carry the cut's name,
@@ -120,13 +122,49 @@ Qed.
    default output (cut_ok, Graph/SplitProofs.v).  That the reported cuts are exactly the
    cross-part edges of the input is checked by the oracle, not proved. *)
 Theorem C11_split_cuts_exact_partial :
-  forall (P K : Type) (keqb : K -> K -> bool) (key : node P -> K) (cut_name : cutedge K -> string)
+  forall (P K : Type) (keqb : K -> K -> bool) (key : list (node P) -> node P -> K) (cut_name : cutedge K -> string)
          (g : graph P) (r : splitres P K),
   split_graph keqb key cut_name g = Ok r ->
   Forall2 (cut_ok P K keqb cut_name (rheap r) (rparts r)) (rcuts r) (rev (rpairs r)).
 Proof.
   intros P K keqb key cut_name g r H.
-  exact (split_cuts_exact P K keqb key cut_name (heap g) g r eq_refl H).
+  exact (split_cuts_exact P K keqb (key (heap g)) cut_name (heap g) g r eq_refl H).
+Qed.
+
+(* split, for ANY key function: where the nodes of the input end up.  rdone r (the engine's
+   `done` dict) lists for every visited node m of the input the key k it was processed under
+   and its written version x in the result.  (1) every node reachable from the sinks of the
+   input has such an entry and x is reachable from the sinks of one of the parts; (2) k is the
+   key of the node AS IT IS IN THE INPUT GRAPH -- also for keys that read the node's inputs,
+   although the inputs of x may be cut sources -- and x keeps name, outputs, payload and
+   input names.  With C11_split_part_of_key and C11_split_partition: every node of the
+   input is in exactly one part, the part of its key in the input graph. *)
+Theorem C11_split_placed_by_input_key :
+  forall (P K : Type) (keqb : K -> K -> bool) (key : list (node P) -> node P -> K) (cut_name : cutedge K -> string)
+         (g : graph P) (r : splitres P K),
+  split_graph keqb key cut_name g = Ok r ->
+  (forall m, reachable (heap g) (sinks g) m ->
+     exists k x, In (m, (k, x)) (rdone r) /\ exists k' ss, In (k', ss) (rparts r) /\ reachable (rheap r) ss x) /\
+  (forall m k x, In (m, (k, x)) (rdone r) ->
+     exists nd nd', nth_error (heap g) m = Some nd /\ k = key (heap g) nd /\ nth_error (rheap r) x = Some nd' /\
+       nname nd' = nname nd /\ nouts nd' = nouts nd /\ npay nd' = npay nd /\ map fst (nins nd') = map fst (nins nd)).
+Proof.
+  intros P K keqb key cut_name g r H. split.
+  - exact (split_placed P K keqb (key (heap g)) cut_name (heap g) g r eq_refl H).
+  - exact (split_done_key P K keqb (key (heap g)) cut_name (heap g) g r eq_refl H).
+Qed.
+
+(* ... and, key equality being equality, a part from whose sinks the version of a node is
+   reachable is the part named by the key the node was processed under *)
+Theorem C11_split_part_of_key :
+  forall (P K : Type) (keqb : K -> K -> bool), (forall a b, keqb a b = true <-> a = b) ->
+  forall (key : list (node P) -> node P -> K) (cut_name : cutedge K -> string) (g : graph P) (r : splitres P K),
+  split_graph keqb key cut_name g = Ok r ->
+  forall m k x, In (m, (k, x)) (rdone r) ->
+  forall k' ss, In (k', ss) (rparts r) -> reachable (rheap r) ss x -> k' = k.
+Proof.
+  intros P K keqb Hk key cut_name g r H.
+  exact (split_part_of_key P K keqb Hk (key (heap g)) cut_name (heap g) g r eq_refl H).
 Qed.
 
 (* the model's fuel suffices: on an acyclic graph with valid sinks no transformation
@@ -145,13 +183,13 @@ Theorem C11_fuel_all :
   copy_graph g <> Err OOF /\
   (forall func, rename_nodes func g <> Err OOF) /\
   (forall pred, deduplicate_nodes pred g <> Err OOF) /\
-  (forall K keqb (key : node P -> K) cut_name, split_graph keqb key cut_name g <> Err OOF) /\
+  (forall K keqb (key : list (node P) -> node P -> K) cut_name, split_graph keqb key cut_name g <> Err OOF) /\
   (forall func, fuse_nodes func g <> Err OOF) /\
   (forall expander, (forall nd sub imap omap, expander nd = Some (sub, imap, omap) -> topo (heap sub) /\ valid_sinks sub) ->
                     expand_graph expander g <> Err OOF).
 Proof.
   intros P g Ht Hs. split; [now apply copy_fuel|]. split; [intros; now apply rename_fuel|].
-  split; [intros; now apply dedup_fuel|]. split; [intros; now apply split_fuel|].
+  split; [intros; now apply dedup_fuel|]. split; [intros; unfold split_graph; now apply split_fuel|].
   split; [intros; now apply fuse_fuel|]. intros; now apply expand_fuel.
 Qed.
 
@@ -417,6 +455,45 @@ Example C11_split_nonvacuous :
             map fst (rparts r) = ["m"; "w"; "t"] /\ List.length (rcuts r) = 3 /\ List.length (rheap r) = 11.
 Proof. eexists. split; [vm_compute; reflexivity|]. repeat split; reflexivity. Qed.
 
+(* a key that reads the node's direct inputs: "io" for sources and for what reads a source,
+   "compute" for the rest, on the pipeline r -> p1 -> p2 -> p3 -> w.  p2, p3, w are filed under
+   "compute" (their key in the input graph) and one edge is cut.  It matters WHEN the key is
+   taken: asked again about the written version of p2 -- whose input now is the cut source --
+   the same function answers "io" (late_key): the model tells the two apart *)
+Definition g_pipe : graph pv := mkGraph
+  [ mkNode "r" ["0"] (Some (PStr "read")) [];
+    mkNode "p1" ["0"] (Some (PStr "decode")) [("input", (0, "0"))];
+    mkNode "p2" ["0"] (Some (PStr "regrid")) [("input", (1, "0"))];
+    mkNode "p3" ["0"] (Some (PStr "mean")) [("input", (2, "0"))];
+    mkNode "w" [] (Some (PStr "write")) [("input", (3, "0"))] ]
+  [4].
+
+Example C11_split_key_time_matters :
+  exists r, split_graph String.eqb (kfun_apply KIo) (fun c => ("cut:" ++ c_dnode c)%string) g_pipe = Ok r /\
+    rparts r = [("io", [2]); ("compute", [6])] /\ List.length (rcuts r) = 1 /\
+    map (@nname pv) (rheap r) = ["r"; "p1"; "cut:p2"; "cut:p2"; "p2"; "p3"; "w"] /\
+    rdone r = [(4, ("compute", 6)); (3, ("compute", 5)); (2, ("compute", 4)); (1, ("io", 1)); (0, ("io", 0))] /\
+    forallb (fun e => match nth_error (heap g_pipe) (fst e) with
+                      | Some nd => String.eqb (fst (snd e)) (kfun_apply KIo (heap g_pipe) nd) | None => false end) (rdone r) = true /\
+    late_key (kfun_apply KIo) r 4 = Some "io" /\ lookupn 2 (rdone r) = Some ("compute", 4).
+Proof. eexists. split; [vm_compute; reflexivity|]. repeat split; vm_compute; reflexivity. Qed.
+
+(* the hypotheses of the placement theorems hold there: every node of g_pipe is reachable *)
+Example C11_split_placed_nonvacuous :
+  (forall a b, String.eqb a b = true <-> a = b) /\
+  (forall m, m < 5 -> reachable (heap g_pipe) (sinks g_pipe) m) /\
+  exists r, split_graph String.eqb (kfun_apply KIo) (fun c => c_dnode c) g_pipe = Ok r /\ List.length (rdone r) = 5.
+Proof.
+  split; [exact String.eqb_eq|]. split.
+  - assert (R4 : reachable (heap g_pipe) (sinks g_pipe) 4) by (apply reach_sink; simpl; now left).
+    assert (R3 : reachable (heap g_pipe) (sinks g_pipe) 3) by (eapply reach_parent; [exact R4|reflexivity|simpl; now left]).
+    assert (R2 : reachable (heap g_pipe) (sinks g_pipe) 2) by (eapply reach_parent; [exact R3|reflexivity|simpl; now left]).
+    assert (R1 : reachable (heap g_pipe) (sinks g_pipe) 1) by (eapply reach_parent; [exact R2|reflexivity|simpl; now left]).
+    assert (R0 : reachable (heap g_pipe) (sinks g_pipe) 0) by (eapply reach_parent; [exact R1|reflexivity|simpl; now left]).
+    intros m Hm. do 5 (destruct m as [|m]; [assumption|]). lia.
+  - eexists. split; [vm_compute; reflexivity|reflexivity].
+Qed.
+
 (* expanding "main.min" of g_ex into a two-node sub-graph whose leaves are called like the
    outputs; the consumers m and tail are wired to main.min.payload / main.min.b *)
 Definition sub_ex : subspec pv :=
@@ -629,6 +706,8 @@ Print Assumptions C11_expand_preserves_partial.
 Print Assumptions C11_fuse_preserves.
 Print Assumptions C11_split_partition.
 Print Assumptions C11_split_cuts_exact_partial.
+Print Assumptions C11_split_placed_by_input_key.
+Print Assumptions C11_split_part_of_key.
 Print Assumptions C11_engine_fuel_sufficient.
 Print Assumptions C11_fuel_all.
 Print Assumptions C11_dedup_idempotent.
